@@ -21,7 +21,7 @@ def ghUpd (s : St) (g : Gh) (t : Tid) (e : Ev) : Gh :=
   match s.pc t, e with
   | .called .beg, .ald .head _ v => { base := upd g.base t s.lst, seen := upd g.seen t v.toList }
   | .called .nxt, .ald (.nnext _) _ v => { g with seen := upd g.seen t (v.toList ++ g.seen t) }
-  | .eUnlock o, .mul => { g with seen := upd g.seen t (o.toList ++ g.seen t) }
+  | .eUnlock o, .mul => if s.it t = some o then g else { g with seen := upd g.seen t (o.toList ++ g.seen t) }
   | _, _ => g
 
 def stepH (sg : St × Gh) (t : Tid) (e : Ev) : Option (St × Gh) :=
@@ -573,7 +573,19 @@ theorem invG_step {s s' : St} {g : Gh} {t : Tid} {e : Ev} (hx : InvX s) (hf : In
   case eUnlock orig hpc hm =>
     conv => arg 2; simp only [ghUpd, hpc]
     obtain ⟨c, c1, c2⟩ := h.eret t orig (by simp [hpc, retOf])
-    exact invG_advance (t := t) h c _ c1 c2 rfl rfl rfl rfl (fun u hut => by simp [hut]) (by simp [curNode]) (by simp [retOf])
+    by_cases hsame : s.it t = some orig
+    · rw [if_pos hsame]
+      have hit : ({ s with wmtx := none, it := upd s.it t (some orig) }.setPc t (.retp (.erase true))).it = s.it := by
+        funext u
+        simp only [setPc_it]
+        by_cases hut : u = t
+        · subst hut; rw [upd_same, hsame]
+        · rw [upd_other _ _ _ _ hut]
+      exact invG_frame (t := t) h hitv (fun y hy => Or.inl hy) (fun y hy => hy) (fun _ _ _ _ _ r => r) hit
+        (fun u hut => by simp [hut]) (by intro c hp; simp [curNode] at hp) (by intro o hp; simp [retOf] at hp)
+        (fun _ _ _ _ _ => rfl)
+    · rw [if_neg hsame]
+      exact invG_advance (t := t) h c _ c1 c2 rfl rfl rfl rfl (fun u hut => by simp [hut]) (by simp [curNode]) (by simp [retOf])
   case beg w r o hpc hh ho =>
     conv => arg 2; simp only [ghUpd, hpc]
     have hdt := dt_false_of_hnd hx.i.a (t := t) (by rw [hh]; simp)
